@@ -41,6 +41,7 @@ fn sweep_spec(prop: &str) -> Option<SweepSpec<'static>> {
         failures_are_verdicts: false,
         exe: None,
         extra_label: "",
+        max_seeds: None,
     };
     Some(match prop {
         "C01" => base("C01", "solve", "the answer contains a vehicle with at least two activities (a consecutive pair exists)."),
@@ -62,6 +63,8 @@ fn sweep_spec(prop: &str) -> Option<SweepSpec<'static>> {
 }
 
 fn check(prop: &str, tier: &str) -> i32 {
+    // the hook-based sweeps clone every stage / step and re-run the search; one hash seed in the quick tier
+    let one_seed_quick = matches!(prop, "C07" | "C08" | "C16") && tier == "quick";
     if prop == "C06" {
         return c06(tier);
     }
@@ -84,7 +87,10 @@ fn check(prop: &str, tier: &str) -> i32 {
         pool::install_panic_recorder_thread();
         return sched_mc::check(prop, tier);
     }
-    if let Some(s) = sweep_spec(prop) {
+    if let Some(mut s) = sweep_spec(prop) {
+        if one_seed_quick {
+            s.max_seeds = Some(1);
+        }
         return sweep::check(s, tier);
     }
     evidence::machinery_error(prop, "no check implemented for this property");
@@ -107,6 +113,7 @@ fn c15(tier: &str) -> i32 {
         failures_are_verdicts: false,
         exe: None,
         extra_label: "pipeline",
+        max_seeds: if tier == "quick" { Some(1) } else { None },
     };
     sweep::run(&s, tier, &mut report);
     report.cov("rule", json!("(1) Explicit-state BFS over real Transition values: from the empty transition all sequences of new_fast (every vehicle subset), update_vehicle (every tour variant; also two in a row through updated_tours), add_vehicle_to_own_cycle, remove_vehicle, add_vehicle_at_the_end (every cycle index incl. empty ones), move_vehicle, three_opt (all i<j<k) + replace_cycle up to the depth, on 4 vehicles with 2-3 tour variants each (with/without maintenance, different depots, overflow depot); every transition checked against a reference list of cycles, the successor lookup, counters recomputed from the input, a behavioural probe of the reusable-empty-cycle list and the code's own verify_consistency. (2) The optimiser: on every instance of the grammar with maintenance x hash seed, the transition handed to and returned by build_transition_local_search_solver inside the real pipeline (hook H2): same vehicles, internally exact, (violation, counter) not worse. evaluations / distinct_nontrivial count part (2): non-trivial = the optimiser changed a cycle."));
@@ -134,6 +141,8 @@ fn c06(tier: &str) -> i32 {
             failures_are_verdicts: true,
             exe: Some(exe),
             extra_label: label,
+            // quick: one hash seed per build (two builds); thorough: all seeds
+            max_seeds: if tier == "quick" { Some(1) } else { None },
         };
         sweep::run(&s, tier, &mut report);
     }
@@ -188,7 +197,7 @@ fn main() {
             let seed: u64 = args.get(3).and_then(|s| s.parse().ok()).unwrap_or(1);
             let input = inst.to_json();
             let r = pool::run_isolated(seed, move || {
-                let a = arena::Arena::from_input_no_inits("dbg", "", input);
+                let a = arena::Arena::from_input_no_inits("dbg", "", input, seed);
                 let start = solver::min_cost_flow_solver::MinCostFlowSolver::initialize(a.nw.clone()).solve();
                 let mut lines = vec![];
                 for v in start.vehicles_iter_all() {
